@@ -62,6 +62,9 @@ class Ctx:
         for f in os.listdir(SPECS):
             if f.endswith(".tla") or f.endswith(".cfg"):
                 shutil.copy(os.path.join(SPECS, f), d)
+        for fn, text in getattr(self, "extra_specs", {}).items():     # modules generated for this run (replace the committed default)
+            with open(os.path.join(d, fn), "w") as f:
+                f.write(text)
         if cfg_text is not None:
             with open(os.path.join(d, cfg_name), "w") as f:
                 f.write(cfg_text)
